@@ -265,6 +265,9 @@ def replay(case):
         b.run_step()
         got = b.session_state["step"]
         return got != g(1), "session clock after a step at t=%r with dt=%r is %r, grid value is %r" % (g(0), dt, got, g(1))
+    if name == "run-grid-concrete":
+        bad = [x for x in concrete_run_probe([(start, dt, 0, False)], n=k)]
+        return bool(bad), ("run_scenarios of a scenario with runspecs start=%r dt=%r %s" % (start, dt, bad[0][4])) if bad else "run_scenarios reports the scenario's grid"
     if name == "timerange-concrete":
         want = [G_py(start, dt, i) for i in range(k + 1)]
         got = list(fpm.timerange(start, want[-1], dt, exclusive=False))
@@ -310,6 +313,36 @@ def concrete_probe(points):
                 break
             if got != want:
                 bad.append((start, dt, n, "yields %d points ending %r, the grid has %d ending %r" % (len(got), got[-2:], len(want), want[-2:])))
+                break
+    return bad
+
+
+def concrete_run_probe(points, n=7):
+    """the grid a batch run reports when the scenario's run specs (not those the model object was built with) define it:
+    bptk.run_scenarios(return_format='df') must list exactly G(0..n).  Concrete, like concrete_probe: it ties the FP
+    obligations (which are about expressions) to the values that actually reach them."""
+    import BPTK_Py
+    from BPTK_Py import Model
+    bad = []
+    for (start, dt, K, _) in points:
+        want = [G_py(start, dt, i) for i in range(n + 1)]
+        other = 1.0 if dt != 1.0 else 0.5
+        for first_then_second in (1, 2):
+            m = Model(starttime=0.0, stoptime=2.0, dt=other, name="probe")
+            c = m.constant("c")
+            c.equation = 1.0
+            b = BPTK_Py.bptk()
+            b.register_scenario_manager({"smp": {"model": m}})
+            b.register_scenarios(scenario_manager="smp", scenarios={"s": {"runspecs": {"starttime": start, "stoptime": want[-1], "dt": dt}}})
+            try:
+                for _ in range(first_then_second):
+                    df = b.run_scenarios(scenarios=["s"], scenario_managers=["smp"], equations=["c"], return_format="df")
+                got = [float(t) for t in df.index]
+            except Exception as e:
+                bad.append((start, dt, n, first_then_second, "raised %r" % (e,)))
+                break
+            if got != want:
+                bad.append((start, dt, n, first_then_second, "reports %d rows ending %r, the grid has %d ending %r" % (len(got), got[-2:], len(want), want[-2:])))
                 break
     return bad
 
@@ -371,6 +404,9 @@ def run(tier):
     for (st_, dt_, n_, what) in concrete_probe(BASE):
         rep.candidate("timerange-concrete:dt=%g" % dt_, {"start": st_, "dt": dt_, "k": n_, "name": "timerange-concrete"},
                       "timerange(%r, G(%d), %r, exclusive=False) %s" % (st_, n_, dt_, what))
+    for (st_, dt_, n_, runs_, what) in concrete_run_probe(BASE):
+        rep.candidate("run-grid-concrete:dt=%g" % dt_, {"start": st_, "dt": dt_, "k": n_, "name": "run-grid-concrete", "runs": runs_},
+                      "run_scenarios (run %d) of a scenario with runspecs start=%r dt=%r %s" % (runs_, st_, dt_, what))
     try:
         src = sources()
     except Exception as e:
